@@ -90,28 +90,7 @@ def v1(fb, chk, tag=""):
             ok = any(a[0] == "ok" and a[1][0] == "call" and a[1][1] == pol.name for a in m.atoms_at(bb))
             chk.check(ok, "V1", tag + "policy-before-body", "body read dominated by the attached-file policy",
                       "the request body is read before the attached-file policy accepted the header", hr.loc(t["line"]))
-    # take_single_file: Some <=> exactly one file
-    tsf = fb.one(name="take_single_file")
-    summ = Summariser(fb, no_inline=lambda g: True)
-    outs, sym = summ.paths(tsf)
-    good = True
-    iff = True
-    nsome = 0
-    tp = [n for n in tsf.arg_names() if n][0]
-    for o in outs:
-        if o.ret is None:
-            continue
-        cls = common.file_classes(fb, sym, o.atoms, tp, single=())
-        if ret_okness(o.ret) is not False:
-            # a path that may return a file (Some(..), or the result of a Vec method such as pop()/into_iter().next())
-            nsome += 1
-            if not cls <= {1}:
-                good = False
-        elif 1 in cls:
-            iff = False
-    chk.check(good and nsome >= 1, "V1", tag + "take_single_file", "Some only when exactly one file was received",
-              "take_single_file can return a file when the count is not exactly one", tsf.loc())
-    ctx_single_iff[0] = good and iff and nsome >= 1
+    take_single_rule(fb, chk, tag)
     # per handler call site
     from .c02 import server_handler_calls
     _hr, mh, calls = server_handler_calls(fb)
@@ -203,6 +182,31 @@ def v1(fb, chk, tag=""):
                   "vring-fd helper: %s" % "; ".join(sorted(probs)), f.loc())
     else:
         chk.anchor_missing("V1", tag + "vring-fd helper")
+
+
+def take_single_rule(fb, chk, tag=""):
+    """take_single_file: Some <=> exactly one file was received (used by the backend server and by the reply readers)."""
+    tsf = fb.one(name="take_single_file")
+    summ = Summariser(fb, no_inline=lambda g: True)
+    outs, sym = summ.paths(tsf)
+    good = True
+    iff = True
+    nsome = 0
+    tp = [n for n in tsf.arg_names() if n][0]
+    for o in outs:
+        if o.ret is None:
+            continue
+        cls = common.file_classes(fb, sym, o.atoms, tp, single=())
+        if ret_okness(o.ret) is not False:
+            # a path that may return a file (Some(..), or the result of a Vec method such as pop()/into_iter().next())
+            nsome += 1
+            if not cls <= {1}:
+                good = False
+        elif 1 in cls:
+            iff = False
+    chk.check(good and nsome >= 1, "V1", tag + "take_single_file", "Some only when exactly one file was received",
+              "take_single_file can return a file when the count is not exactly one", tsf.loc())
+    ctx_single_iff[0] = good and iff and nsome >= 1
 
 
 def mem_table_facts(fb, f, bb, atoms):
